@@ -674,7 +674,7 @@ def run(ctx):
     ctx.bound("routes: collection.load (list and single-str input) and `toasty view` CLI for every selection; `toasty tile-multi-tan` CLI "
               "for scalar selections; tile_fits end-to-end (TAN mode, parallel=1) for <= %d selections per set" % n_tf)
     ctx.bound("%d of these sets name THE SAME PATH more than once in the input list ([mef, mef], [mef, mef, other], [mef, other, mef], "
-              "[other, mef, mef], [a, b, a, b], [mef, mef, mef]%s): every per-position HDU list (the positions of one file get "
+              "[other, mef, mef], [a, b, a, b], [mef, mef, mef], [mef, mef, other] with free WCS%s): every per-position HDU list (the positions of one file get "
               "different HDUs), <= %d per-position key lists (all if fewer), same routes; tile_fits picks start with lists that "
               "differ on the repeated path" % (len(sets) - n_plain, ", 8 seeded random orders with repeats" if thorough else "", n_keylists_dup))
     ctx.assume("astropy.io.fits / astropy.wcs write the generated files and read tiles back faithfully")
